@@ -140,7 +140,7 @@ def run_c11(chk, binp):
     core.log("[C11] generated %d cases (law checked) in %.1fs" % (n, g.wall))
     obs = chk.path("obs_enum.ndjson")
     core.run_bin(binp, ["obs-build", cases, obs])
-    nr = 500 if quick else 30000
+    nr = 500 if quick else 10000
     robs = chk.path("obs_rand.ndjson")
     core.run_bin(binp, ["rand-build", nr, chk.seed, robs])
     allobs = chk.path("obs_all.ndjson")
@@ -148,7 +148,7 @@ def run_c11(chk, binp):
         f.write(open(obs).read())
         f.write(open(robs).read())
     t0 = time.time()
-    out, lines = validate(chk, allobs, shards=8)
+    out, lines = validate(chk, allobs, shards=8 if quick else 14)
     core.log("[C11] validated %d observations in %.1fs" % (len(lines), time.time() - t0))
     classify_build(chk, out["MISMATCH"], lines)
     chk.add("enumerated_cases", n)
@@ -247,7 +247,7 @@ def run_c12(chk, binp):
         f.write(open(obs).read())
         f.write(open(robs).read())
     t0 = time.time()
-    out, lines = validate(chk, allobs, shards=8, tags=("MISMATCH", "DIAG"))
+    out, lines = validate(chk, allobs, shards=8 if quick else 14, tags=("MISMATCH", "DIAG"))
     core.log("[C12] validated %d observations in %.1fs" % (len(lines), time.time() - t0))
     classify_hostile(chk, out["MISMATCH"], lines, out["DIAG"])
     chk.add("enumerated_cases", n)
@@ -323,7 +323,7 @@ def run_c13(chk, binp):
             if "tool_error" in cn:
                 raise core.ToolError("connection harness failed on case %s (%s): %s" % (o["id"], cn["mode"], cn["tool_error"]))
     t0 = time.time()
-    out, lines = validate(chk, obs, shards=6)
+    out, lines = validate(chk, obs, shards=6 if quick else 14)
     core.log("[C13] validated %d observations in %.1fs" % (len(lines), time.time() - t0))
     classify_compat(chk, out["MISMATCH"], lines)
     chk.add("enumerated_cases", n)
